@@ -358,6 +358,11 @@ func (p *bprover) boolPhiFacts(cond ssa.Value, neg bool, s *factSet, depth int) 
 		return
 	}
 	e := phi.Edges[cand]
+	if phi.Block().Dominates(phi.Block().Preds[cand]) {
+		// a flag carried round a loop: the edge it came in over belongs to an earlier iteration, whose conditions speak
+		// about that iteration's values of the loop variables, not about the ones in force now
+		return
+	}
 	if _, isC := e.(*ssa.Const); !isC {
 		s.add(p.condFacts(e, neg))
 		p.boolPhiFacts(e, neg, s, depth+1)
@@ -1362,6 +1367,9 @@ func (p *bprover) prove(goal dfact, b *ssa.BasicBlock, extra *factSet, depth int
 	s.add(extra.fs, extra.ns, extra.par)
 	p.chainFacts(b, s)
 	if p.direct(goal, s) {
+		if os.Getenv("RG_DEBUG_DIRECT") != "" && depth == 6 && goal.b == "0" && goal.c == 0 {
+			fmt.Fprintf(os.Stderr, "direct %s at block %d of %s: facts %v\n", goal, b.Index, p.fn.Name(), s.fs)
+		}
 		return true
 	}
 	if os.Getenv("RG_DEBUG_PROVE") != "" && depth == 6 {
@@ -1434,7 +1442,7 @@ func (p *bprover) prove(goal dfact, b *ssa.BasicBlock, extra *factSet, depth int
 		if !zeroFirst {
 			hi, lo = y, x
 		}
-		if !(p.boundedAbove(p.vals[hi.n], bo) || hi.n == "0" || p.prove(dfact{hi.n, "0", big - hi.k}, b, extra, depth-1)) ||
+		if !(hi.n == "0" || (p.vals[hi.n] != nil && p.boundedAbove(p.vals[hi.n], bo)) || p.prove(dfact{hi.n, "0", big - hi.k}, b, extra, depth-1)) ||
 			!(lo.n == "0" || strings.HasPrefix(lo.n, "len:") || p.prove(dfact{"0", lo.n, big + lo.k}, b, extra, depth-1)) {
 			delete(p.stack, key)
 			continue
